@@ -435,3 +435,31 @@ func splitStr(v Value, sep string) []Value {
 	out = append(out, mkStr(cur))
 	return out
 }
+
+// sliceBeforeDec slices a string with decimal atoms when the bounds fall into the part
+// before the first decimal atom (where byte positions are known).
+func sliceBeforeDec(as []Atom, lo, hi int, hasHi bool) (Value, bool) {
+	var prefix []Value
+	k := 0
+	for ; k < len(as) && as[k].Kind != aDec; k++ {
+		switch as[k].Kind {
+		case aConc:
+			for i := 0; i < len(as[k].S); i++ {
+				prefix = append(prefix, int64(as[k].S[i]))
+			}
+		case aByte:
+			prefix = append(prefix, as[k].T)
+		}
+	}
+	if lo < 0 || lo > len(prefix) {
+		return nil, false
+	}
+	if hasHi {
+		if hi < lo || hi > len(prefix) {
+			return nil, false
+		}
+		return strFromBytes(prefix[lo:hi]), true
+	}
+	head := atomsOf(strFromBytes(prefix[lo:]))
+	return mkStr(append(append([]Atom{}, head...), as[k:]...)), true
+}
